@@ -113,6 +113,8 @@ def post_init_converters(str_fields: List[str], wrap_fn=None):
 
 def _process_string_field_value(path: List[str], value: Any, current_type: Any, optional=False) -> Any:
     token, *path = path
+    if optional and value is None:
+        return value
     if token == 'S':
         try:
             value = current_type.to_internal_value(value)
@@ -127,8 +129,6 @@ def _process_string_field_value(path: List[str], value: Any, current_type: Any, 
             current_type=current_type.__args__[0],
             optional=True
         )
-    elif optional and value is None:
-        return value
     elif token == 'L':
         t = current_type.__args__[0]
         return [
